@@ -568,6 +568,28 @@ def install():
             tol = [float(500.0 * EPS * max(models.n, models.npt) * c * s) for s in sm]
             run.emit("Interp", what=what, k=k + 1, resid=KL(res), tol=KL(tol), cond=K(cond),
                      illskip=bool(run.cond_max > 1e13))
+            # the views of the objective model are those of one quadratic (C13)
+            itp = models.interpolation
+            v = itp.xpt[:, min(1, models.npt - 1)] + 0.5 * itp.xpt[:, 0] + 1e-3 * np.max(np.abs(itp.xpt), initial=1.0)
+            Hm = models.fun_hess()
+            hp = models.fun_hess_prod(v)
+            e1 = float(np.max(np.abs(Hm @ v - hp), initial=0.0))
+            e2 = abs(float(models.fun_curv(v)) - float(v @ hp))
+            x = itp.point(0)
+            g0 = models.fun_grad(itp.x_base)
+            e3 = float(np.max(np.abs(models.fun_grad(x) - (g0 + models.fun_hess_prod(x - itp.x_base))), initial=0.0))
+            hs = float(np.max(np.abs(Hm), initial=0.0))
+            try:   # the two parts of the Hessian may cancel: rounding is relative to their sizes
+                q = models._fun
+                hs = max(hs, float(np.max(np.abs(q._e_hess), initial=0.0))
+                         + float(np.sum(np.abs(q._i_hess) * np.sum(itp.xpt ** 2, axis=0))))
+            except Exception:
+                pass
+            vn = float(np.linalg.norm(v))
+            t1 = 1e3 * EPS * max(models.n, 1) * (hs * vn + 1e-300)
+            t2 = 1e3 * EPS * max(models.n, 1) * (hs * vn * vn + 1e-300)
+            t3 = 1e3 * EPS * max(models.n, 1) * (float(np.max(np.abs(g0), initial=0.0)) + hs * float(np.linalg.norm(x - itp.x_base)) + 1e-300)
+            run.emit("Views", err=KL([e1, e2, e3]), tol=KL([t1, t2, t3]))
         except Exception as ex:  # pragma: no cover
             run.emit("RecErr", what="Interp:" + type(ex).__name__)
 
@@ -591,11 +613,66 @@ def install():
 
     _wrap_method(MD.Models, "update_interpolation", upd_before, upd_after)
 
-    def shift_after(run, self, a, kw, ctx, res, exc):
+    def _probe_vals(models):
+        """values of every model at the interpolation points and at two extra probes (absolute)"""
+        itp = models.interpolation
+        pts = [itp.point(k).copy() for k in range(models.npt)]
+        c = np.mean(pts, axis=0)
+        pts += [c, 2.0 * pts[0] - c]
+        out = []
+        for p in pts:
+            out.append([float(models.fun(p))] + [float(v) for v in models.cub(p)] + [float(v) for v in models.ceq(p)])
+        return np.array(out, float)
+
+    def shift_before(run, self, a, kw):
+        if "interp" in run.want:
+            try:
+                return _probe_vals(self)
+            except Exception:
+                return None
+        return None
+
+    def shift_after(run, self, a, kw, before, res, exc):
         if exc is None and "interp" in run.want:
             _emit_interp(run, self, "Shift", -1)
+            try:
+                if before is not None:
+                    after = _probe_vals(self)
+                    cond = min(getattr(run, "cond_max", 1.0), 1e15)
+                    sc = np.maximum(np.max(np.abs(before), axis=0), 1.0)
+                    sm = getattr(run, "scale_max", None)
+                    if sm is not None and len(sm) == sc.size:
+                        sc = np.maximum(sc, np.array(sm))
+                    err = np.max(np.abs(after - before), axis=0)
+                    tol = 2000.0 * EPS * max(self.n, self.npt) * cond * sc
+                    run.emit("ShiftInv", err=KL(err), tol=KL(tol), skip=bool(getattr(run, "cond_max", 1.0) > 1e13))
+            except Exception as ex:  # pragma: no cover
+                run.emit("RecErr", what="ShiftInv:" + type(ex).__name__)
 
-    _wrap_method(MD.Models, "shift_x_base", None, shift_after)
+    _wrap_method(MD.Models, "shift_x_base", shift_before, shift_after)
+
+    # ---- Models.determinants: the one-index and the all-indices answers must agree (C14)
+    def det_after(run, self, a, kw, ctx, res, exc):
+        if exc is not None or "interp" not in run.want or getattr(run, "_in_det", False):
+            return
+        k = a[1] if len(a) > 1 else kw.get("k_new")
+        if k is None:
+            return
+        run._in_det = True
+        try:
+            allk = MD.Models.determinants(self, a[0])
+            one, other = float(res), float(allk[int(k)])
+            cond = _cond_estimate(self)
+            den = max(abs(one), abs(other), 1.0)      # sigma = alpha beta + tau^2 may cancel: absolute scale 1
+            # both answers solve the same systems: they differ by rounding amplified by the conditioning
+            run.emit("Dets", rel=K(abs(one - other) / den), tol=K(min(1e4 * EPS * max(cond, 1.0), 1e-2)),
+                     skip=bool(not (math.isfinite(one) and math.isfinite(other)) or cond > 1e10))
+        except Exception as ex:  # pragma: no cover
+            run.emit("RecErr", what="Dets:" + type(ex).__name__)
+        finally:
+            run._in_det = False
+
+    _wrap_method(MD.Models, "determinants", None, det_after)
 
     def reset_after(run, self, a, kw, ctx, res, exc):
         if exc is None and "interp" in run.want:
